@@ -83,6 +83,7 @@ FIXED = [
     ("C08", "6efef46", "`function F(){}; F.prototype={y:2}; new F().y` was undefined and `F.z=3; F.z` too: property writes on functions were dropped"),
     ("C08", "010a6d1", "`({})+1`, `var t=({}).toString; t()` raised a Python TypeError out of eval; this-taking natives used as callbacks, getters, setters or comparators received the wrong this"),
     ("C04", "010a6d1", "`({})+1` raised TypeError: JSBoundMethod.__call__() missing 1 required positional argument out of eval"),
+    ("C18", "5130b9b", "`String(1e-7)` was '1e-07' and `Number('1_0')` was 10: number printing used repr() and parsing used int()/float() without the StringNumericLiteral grammar"),
     ("C04", "5541b57", "`a.reduce(function(acc,x){a.pop();return acc+x})` (and reduceRight) let a raw IndexError escape: the loop bound was computed before the callbacks ran"),
 ]
 
